@@ -3,10 +3,22 @@
 Stage 1a (cheap, many): configure_solver + setup_properties on plain
 particle arrays + get_equations, then an INDEPENDENT requirement scan (hook
 signatures + documented pair-symbol formulas) over every equation and every
-stepper, and construction of AccelerationEval / SPHCompiler.
+stepper, a scan of the hook bodies for names that resolve nowhere, and
+construction of AccelerationEval / SPHCompiler.
 Stage 1b: code generation (get_code) must succeed.
 Stage 2 (sampled): JIT compile and run 3 steps on a small lattice; all
-properties finite afterwards.
+properties finite afterwards.  Two kinds of stage-2 shards: `stage2c-*`
+compile a fixed, seed-independent set of configurations per scheme chosen
+so that every equation / stepper class the scheme can emit is compiled at
+least once (cached in the JIT home while the sources do not change), and
+`stage2-*` a sample that rotates with the seed.
+
+A configuration is more than the option values: the number of fluid and
+solid arrays, the integrator / kernel handed to configure_solver, the route
+by which the options reach the scheme (constructor, configure(), the
+command line through add_user_options/consume_user_options), a
+SchemeChooser wrapped around the scheme, and for EDAC the inlet/outlet
+manager are generated too.
 """
 import inspect
 import itertools
@@ -17,12 +29,18 @@ from hypothesis import strategies as st
 from vlib.hyp import (Failure, Outcome, Stats, search, derive_seed, canon,
                       case_hash)
 
-RULE = ('configuration = scheme class x values of its boolean/enumerated '
-        'options x dim x with/without solid arrays x clean in {T,F}; stage 1 '
-        'enumerates a pairwise-covering + Hypothesis-drawn sample in quick '
-        'and the full product in thorough; stage 2 compiles and runs a '
-        'sample. Non-trivial = configuration differing from the scheme '
-        'defaults in >= 1 option; distinct by configuration hash.')
+RULE = ('configuration = scheme class (the 16 of pysph.sph + '
+        'tools.ParticlePacking) x values of its boolean/enumerated '
+        'options x dim x with/without solid arrays x clean in {T,F} x '
+        '{1,2} fluid arrays x {1,2} solid arrays x array names x '
+        'integrator_cls x kernel '
+        'x option route {ctor, configure, cli} x SchemeChooser {none, '
+        'default, chosen on the command line} (EDAC: x inlet/outlet '
+        'manager); stage 1 enumerates a pairwise-covering + Hypothesis-drawn '
+        'sample in quick and the full option product (extras rotating) in '
+        'thorough; stage 2 compiles and runs a class-covering fixed set and '
+        'a rotating sample. Non-trivial = configuration differing from the '
+        'scheme defaults in >= 1 option; distinct by configuration hash.')
 ASSUMPTIONS = [
     'plain particle arrays = pysph.base.utils.get_particle_array(name, x, '
     'y, z, h, m, rho) (its documented default property set)',
@@ -31,14 +49,39 @@ ASSUMPTIONS = [
     'stage 2 initial state: regular lattice, positive finite fields, small '
     'fixed dt; non-finite values after 3 steps are violations',
     'ElasticSolidsScheme has no setup_properties and is outside C12',
+    'an integrator_cls other than the scheme default is only *run* (stage '
+    '2) where the scheme documents or selects steppers for it; stage 1 '
+    '(properties, code generation) covers every integrator',
+    'inlet/outlet managers are exercised in stage 1 only (running them '
+    'needs the inlet/outlet update objects of an Application)',
+    'array names: fluid/fluid2/solid/solid2 or water/oil/boundary/lid; '
+    'ISPH and SISPH only with the first set (known finding, counted)',
+    'static stage-1 oracles beyond the property scan: a hook body may only '
+    'use names that resolve (arguments, locals, module globals, builtins, '
+    'C math, transpiler names, numeric attributes / methods of self) and '
+    'one equation object may sit in one group only; both are necessary for '
+    'the generated module to compile',
+    'the process-wide Group name counter is restarted per case so that the '
+    'generated source (the JIT cache key) does not depend on history',
+    'open finding excluded by construction and counted (label '
+    'known_crksph_two_fluids_excluded): a CRKSPH *run* with two fluid '
+    'arrays; ParticlePacking is stage 1 only',
 ]
 ESSENTIAL_LABELS = {'all': ['stage1', 'stage1b', 'with_solids',
-                            'without_solids', 'clean_false', 'non_default']}
+                            'without_solids', 'clean_false', 'non_default',
+                            'two_fluids', 'two_solids',
+                            'integrator_override', 'kernel_override',
+                            'route_cli', 'route_configure', 'chooser',
+                            'chooser_cli', 'io_manager', 'wcsph_tvdrk3',
+                            'other_names',
+                            'gtvf_dim1', 'stage2', 'stage2_cover']}
 SHARD_TIMEOUT = {'quick': 1700, 'thorough': 10 * 3600}
 
 # scheme -> (module, ctor kwargs (without fluids/solids/dim), option space,
 #            dims, takes_solids)
 B = [False, True]
+IOMS = [None, 'donothing', 'mirror', 'hybrid', 'mod_donothing',
+        'characteristic']
 SCHEMES = {
     'WCSPHScheme': ('pysph.sph.scheme', dict(rho0=1.0, c0=10.0, h0=0.13,
                                             hdx=1.3),
@@ -47,10 +90,12 @@ SCHEMES = {
                          alpha=[0.0, 0.1]), [1, 2, 3], True),
     'TVFScheme': ('pysph.sph.scheme', dict(rho0=1.0, c0=10.0, nu=0.01,
                                           p0=100.0, pb=100.0, h0=0.13),
-                  dict(alpha=[0.0, 0.1], nu=[0.0, 0.01]), [1, 2, 3], True),
+                  dict(alpha=[0.0, 0.1], nu=[0.0, 0.01],
+                       tdamp=[0.0, 0.5]), [1, 2, 3], True),
     'AdamiHuAdamsScheme': ('pysph.sph.scheme', dict(rho0=1.0, c0=10.0,
                                                    nu=0.01, h0=0.13),
-                           dict(alpha=[0.0, 0.1], nu=[0.0, 0.01]),
+                           dict(alpha=[0.0, 0.1], nu=[0.0, 0.01],
+                                tdamp=[0.0, 0.5]),
                            [1, 2, 3], True),
     'GasDScheme': ('pysph.sph.scheme', dict(gamma=1.4, kernel_factor=1.2),
                    dict(adaptive_h_scheme=['mpm', 'gsph'], update_alpha1=B,
@@ -58,33 +103,38 @@ SCHEMES = {
     'GSPHScheme': ('pysph.sph.scheme', dict(gamma=1.4, kernel_factor=1.2),
                    dict(rsolver=list(range(11)), interpolation=[0, 1, 2, 3],
                         monotonicity=[0, 1, 2], interface_zero=B, hybrid=B,
-                        has_ghosts=B), [1, 2, 3], True),
+                        has_ghosts=B, g1=[0.0, 0.2], g2=[0.0, 0.1]),
+                   [1, 2, 3], True),
     'ADKEScheme': ('pysph.sph.scheme', dict(gamma=1.4),
-                   dict(has_ghosts=B, eps=[0.0, 0.5]), [1, 2, 3], True),
+                   dict(has_ghosts=B, eps=[0.0, 0.5], g1=[0.0, 0.5],
+                        g2=[0.0, 0.5]), [1, 2, 3], True),
     'IISPHScheme': ('pysph.sph.iisph', dict(rho0=1.0),
-                    dict(has_ghosts=B, nu=[0.0, 0.01]), [1, 2, 3], True),
+                    dict(has_ghosts=B, nu=[0.0, 0.01], debug=B),
+                    [1, 2, 3], True),
     'GTVFScheme': ('pysph.sph.wc.gtvf', dict(rho0=1.0, c0=10.0, nu=0.01,
                                             h0=0.13, pref=100.0),
-                   dict(alpha=[0.0, 0.1], nu=[0.0, 0.01]), [2, 3], True),
+                   dict(alpha=[0.0, 0.1], nu=[0.0, 0.01]), [1, 2, 3], True),
     'EDACScheme': ('pysph.sph.wc.edac', dict(c0=10.0, nu=0.01, rho0=1.0,
                                             h=0.13),
                    dict(pb=[0.0, 100.0], clamp_p=B, bql=B,
                         alpha=[0.0, 0.1], eps=[0.0, 0.5],
                         inviscid_solids=[None, 'SOLIDS'],
-                        nu=[0.0, 0.01]), [1, 2, 3], True),
+                        nu=[0.0, 0.01], h=[0.13, 0.0], tdamp=[0.0, 0.5],
+                        iom=IOMS), [1, 2, 3], True),
     'CRKSPHScheme': ('pysph.sph.wc.crksph', dict(rho0=1.0, c0=10.0, nu=0.01,
                                                 h0=0.13, p0=100.0),
-                     dict(has_ghosts=B), [1, 2, 3], False),
+                     dict(has_ghosts=B, nu=[0.01, 0.0]), [1, 2, 3], False),
     'PCISPHScheme': ('pysph.sph.wc.pcisph', dict(rho0=1.0, nu=0.01),
-                     dict(show_itercount=B, nu=[0.0, 0.01]), [1, 2, 3],
-                     False),
+                     dict(show_itercount=B, nu=[0.0, 0.01], debug=B),
+                     [1, 2, 3], False),
     'ISPHScheme': ('pysph.sph.isph.isph', dict(nu=0.01, rho0=1.0, c0=10.0,
                                               alpha=0.1),
                    dict(symmetric=B), [1, 2, 3], True),
     'SISPHScheme': ('pysph.sph.isph.sisph', dict(nu=0.01, rho0=1.0, c0=10.0,
                                                 pref=100.0),
                     dict(hg_correction=B, has_ghosts=B, gtvf=B, symmetric=B,
-                         internal_flow=B, use_pref=B), [1, 2, 3], True),
+                         internal_flow=B, use_pref=B, alpha=[0.0, 0.1],
+                         nu=[0.01, 0.0]), [1, 2, 3], True),
     'MAGMA2Scheme': ('pysph.sph.gas_dynamics.magma2', dict(gamma=1.4),
                      dict(adaptive_h_scheme=['magma2', 'mpm'],
                           reconstruction_order=[0, 1, 2],
@@ -97,98 +147,396 @@ SCHEMES = {
     'PSPHScheme': ('pysph.sph.gas_dynamics.psph', dict(gamma=1.4,
                                                       hfact=1.2),
                    dict(has_ghosts=B), [1, 2, 3], True),
+    # the packing scheme of pysph.tools is a Scheme subclass with
+    # setup_properties too (solids is a dict boundary -> boundary nodes,
+    # plus frozen arrays; dims 2 and 3 only): stage 1 only
+    'ParticlePacking': ('pysph.tools.particle_packing',
+                        dict(pb=1.0, k=0.005, nu=0.5, hdx=1.2, dx=0.1),
+                        dict(filter_layers=B, hardpoints=[None, 'HP'],
+                             nu=[0.5, 0.0], use_prediction=B,
+                             reduce_dfreq=B), [2, 3], True),
 }
+STAGE1_ONLY = ('ParticlePacking',)
+
+# ---- what is generated besides the option values (first value = default)
+INTEGRATORS = [None, 'EulerIntegrator', 'PECIntegrator', 'EPECIntegrator',
+               'TVDRK3Integrator', 'LeapFrogIntegrator', 'PEFRLIntegrator']
+KERNELS = [None, 'CubicSpline', 'QuinticSpline', 'Gaussian', 'SuperGaussian',
+           'WendlandQuintic', 'WendlandQuinticC4', 'WendlandQuinticC6']
+KERNEL_1D = {'WendlandQuintic': 'WendlandQuinticC2_1D',
+             'WendlandQuinticC4': 'WendlandQuinticC4_1D',
+             'WendlandQuinticC6': 'WendlandQuinticC6_1D'}
+ROUTES = ['ctor', 'configure', 'cli']
+CHOOSERS = [None, 'default', 'cli']
+NAMES = {'std': (['fluid', 'fluid2'], ['solid', 'solid2']),
+         'alt': (['water', 'oil'], ['boundary', 'lid'])}
+EXTRAS = dict(nfluids=[1, 2], nsolids=[1, 2], integrator=INTEGRATORS,
+              kernel=KERNELS, route=ROUTES, chooser=CHOOSERS,
+              names=['std', 'alt'])
+EXTRA_KEYS = sorted(EXTRAS)
+EXTRA_DEFAULT = dict((k, v[0]) for k, v in EXTRAS.items())
+
+# integrators under which a stage-2 *run* is meaningful: the scheme picks
+# matching steppers (WCSPH) or its steppers implement the stages used
+S2_INTEGRATORS = {
+    'WCSPHScheme': [None, 'EPECIntegrator', 'TVDRK3Integrator',
+                    'EulerIntegrator'],
+    'AdamiHuAdamsScheme': [None, 'EPECIntegrator'],
+    'EDACScheme': [None, 'EPECIntegrator'],
+    'GasDScheme': [None, 'EPECIntegrator'],
+    'ADKEScheme': [None, 'EPECIntegrator'],
+}
+S2_KERNELS = [None, 'CubicSpline', 'QuinticSpline', 'WendlandQuintic']
+
+
+def extras_of(cfg):
+    return dict((k, cfg.get(k, EXTRA_DEFAULT[k])) for k in EXTRA_KEYS)
 
 
 def option_names(name):
     return sorted(SCHEMES[name][2])
 
 
+def _factors(name):
+    """[(key, values)] of everything that is generated for one scheme."""
+    mod, base, opts, dims, solids = SCHEMES[name]
+    f = [('dim', list(dims)), ('solids', [False, True] if solids
+                              else [False]), ('clean', [True, False])]
+    f += [('o:' + k, list(opts[k])) for k in sorted(opts)]
+    for k in EXTRA_KEYS:
+        if k == 'nsolids' and not solids:
+            continue
+        f.append((k, list(EXTRAS[k])))
+    return f
+
+
+def _decode(name, factors, index):
+    cfg = dict(scheme=name, options={})
+    for k, vals in factors:
+        index, r = divmod(index, len(vals))
+        if k.startswith('o:'):
+            cfg['options'][k[2:]] = vals[r]
+        else:
+            cfg[k] = vals[r]
+    return normalise(cfg)
+
+
+def normalise(cfg):
+    """Canonical form: generated values that cannot matter are reset, the
+    few combinations that are outside the documented domain are mapped to
+    their nearest documented neighbour (by construction, not rejection)."""
+    cfg = dict(cfg)
+    cfg['options'] = dict(cfg['options'])
+    for k in EXTRA_KEYS:
+        cfg.setdefault(k, EXTRA_DEFAULT[k])
+    if not cfg.get('solids'):
+        cfg['solids'] = False
+        cfg['nsolids'] = 1
+    ex = [x for x in cfg.get('_excluded', [])]
+    if ex:
+        cfg['_excluded'] = sorted(set(ex))
+    return cfg
+
+
+def _coprime_stride(total):
+    for p in (1000003, 999983, 1299709, 15485863, 7919, 104729):
+        if math.gcd(p, total) == 1:
+            return p
+    return 1
+
+
 def all_configs(name):
+    """The full product of options x dim x solids x clean; the extras rotate
+    through their own product along the enumeration (thorough tier)."""
     mod, base, opts, dims, solids = SCHEMES[name]
     keys = sorted(opts)
+    ef = [(k, EXTRAS[k]) for k in EXTRA_KEYS
+          if not (k == 'nsolids' and not solids)]
+    etotal = 1
+    for k, v in ef:
+        etotal *= len(v)
+    stride = _coprime_stride(etotal)
     out = []
+    i = 0
     for dim in dims:
         for ws in ([False, True] if solids else [False]):
             for clean in (True, False):
                 for vals in itertools.product(*[opts[k] for k in keys]):
-                    out.append(dict(scheme=name, dim=dim, solids=ws,
-                                    clean=clean,
-                                    options=dict(zip(keys, vals))))
+                    cfg = dict(scheme=name, dim=dim, solids=ws, clean=clean,
+                               options=dict(zip(keys, vals)))
+                    j = (i * stride) % etotal
+                    for k, v in ef:
+                        j, r = divmod(j, len(v))
+                        cfg[k] = v[r]
+                    out.append(normalise(cfg))
+                    i += 1
     return out
 
 
-def pairwise_configs(name):
-    """A small covering sample: defaults, each option value alone, and all
-    pairs via a greedy pass over the full product (capped)."""
-    full = all_configs(name)
-    if len(full) <= 64:
-        return full
+def _feats(c):
+    f = [('dim', c['dim']), ('solids', c['solids']), ('clean', c['clean'])]
+    f += sorted(('o:' + k, repr(v)) for k, v in c['options'].items())
+    f += [(k, repr(c[k])) for k in EXTRA_KEYS]
+    return frozenset(itertools.combinations(f, 2))
 
-    def feats(c):
-        f = [('dim', c['dim']), ('solids', c['solids']),
-             ('clean', c['clean'])] + sorted(
-                 (k, repr(v)) for k, v in c['options'].items())
-        return set(itertools.combinations(f, 2))
+
+def pairwise_configs(name, seed=0, cap=90, pool_size=1200):
+    """A covering sample: every pair of generated values (options, dim,
+    solids, clean AND the extras) occurs together in at least one chosen
+    configuration.  Greedy set cover over a lattice-strided pool of the
+    full product (no RNG); the seed only shifts the lattice."""
+    factors = _factors(name)
+    total = 1
+    for k, v in factors:
+        total *= len(v)
+    stride = _coprime_stride(total)
+    off = derive_seed(seed, 'C12pool', name) % total
+    seen, pool = set(), []
+    for k in range(min(pool_size, total)):
+        c = _decode(name, factors, (off + k * stride) % total)
+        h = canon(c)
+        if h not in seen:
+            seen.add(h)
+            pool.append((c, _feats(c)))
     need = set()
-    for c in full[::max(1, len(full) // 400)]:
-        need |= feats(c)
+    for c, f in pool:
+        need |= f
     chosen = []
-    pool = full[::max(1, len(full) // 600)]
-    while need and len(chosen) < 48:
-        best = max(pool, key=lambda c: len(feats(c) & need))
-        gain = feats(best) & need
+    while need and len(chosen) < cap:
+        best = max(pool, key=lambda cf: len(cf[1] & need))
+        gain = best[1] & need
         if not gain:
             break
-        chosen.append(best)
+        chosen.append(best[0])
         need -= gain
     return chosen
 
 
 # --------------------------------------------------------------- building
+def fluid_names(cfg):
+    return NAMES[cfg.get('names', 'std')][0][:cfg.get('nfluids', 1)]
+
+
+def solid_names(cfg):
+    if not cfg.get('solids'):
+        return []
+    return NAMES[cfg.get('names', 'std')][1][:cfg.get('nsolids', 1)]
+
+
+def make_kernel(cfg):
+    nm = cfg.get('kernel')
+    if nm is None:
+        return None
+    import pysph.base.kernels as K
+    if cfg['dim'] == 1:
+        nm = KERNEL_1D.get(nm, nm)
+    return getattr(K, nm)(dim=cfg['dim'])
+
+
+def make_integrator_cls(cfg):
+    nm = cfg.get('integrator')
+    if nm is None:
+        return None
+    import pysph.sph.integrator as I
+    return getattr(I, nm)
+
+
+def lattice_n(cfg):
+    return {1: 12, 2: 8, 3: 8}[cfg['dim']]
+
+
+def make_iom(kind, fluids, cfg):
+    """The inlet/outlet manager exactly as the shipped example
+    (examples/flow_past_cylinder_2d.py) sets each kind up."""
+    import importlib
+    from pysph.sph.bc.inlet_outlet_manager import InletInfo, OutletInfo
+    pk = 'pysph.sph.bc.' + kind
+    Inlet = importlib.import_module(pk + '.inlet').Inlet
+    Outlet = importlib.import_module(pk + '.outlet').Outlet
+    Manager = importlib.import_module(
+        pk + '.simple_inlet_outlet').SimpleInletOutlet
+    o_ghost = kind == 'mirror'
+    L = lattice_n(cfg) * 0.1
+    props = ['x0', 'y0', 'z0', 'uhat', 'vhat', 'what', 'x', 'y', 'z', 'u',
+             'v', 'w', 'm', 'h', 'rho', 'p', 'ioid']
+    if kind == 'hybrid':
+        props += ['uta', 'pta', 'u0', 'v0', 'w0', 'p0']
+    ii = InletInfo(pa_name='inlet', normal=[-1.0, 0.0, 0.0],
+                   refpoint=[0.0, 0.0, 0.0], has_ghost=True,
+                   update_cls=Inlet, umax=1.0)
+    oi = OutletInfo(pa_name='outlet', normal=[1.0, 0.0, 0.0],
+                    refpoint=[L, 0.0, 0.0], has_ghost=o_ghost,
+                    update_cls=Outlet, equations=None, props_to_copy=props)
+    iom = Manager(fluid_arrays=list(fluids), inletinfo=[ii],
+                  outletinfo=[oi])
+    iom.update_dx(0.1)
+    return iom
+
+
+def _cli_args(actions, scheme, opts):
+    """command-line words that set `opts` (those that the scheme offers on
+    its command line and whose value the command line can express)."""
+    import argparse
+    args, used = [], set()
+    for k in sorted(opts):
+        v = opts[k]
+        acts = [a for a in actions if a.dest == k and a.option_strings]
+        if not acts:
+            continue
+        if isinstance(v, bool):
+            want = argparse._StoreTrueAction if v else \
+                argparse._StoreFalseAction
+            acts = [a for a in acts if isinstance(a, want)]
+            if acts:
+                args.append(acts[0].option_strings[0])
+                used.add(k)
+            continue
+        acts = [a for a in acts if isinstance(a, argparse._StoreAction)]
+        if not acts or v is None or isinstance(v, (list, dict)):
+            continue
+        a = acts[0]
+        word = None
+        if a.choices is not None:
+            if v in a.choices:
+                word = str(v)
+            else:
+                table = getattr(scheme, k + '_choices', None)
+                if isinstance(table, dict):
+                    names = sorted(n for n, val in table.items() if val == v)
+                    if names and names[0] in a.choices:
+                        word = names[0]
+        else:
+            word = repr(v) if isinstance(v, float) else str(v)
+        if word is not None:
+            args += [a.option_strings[0], word]
+            used.add(k)
+    return args, used
+
+
 def make_scheme(cfg):
+    """-> (object the application talks to, the configured scheme, iom).
+
+    Follows the order of pysph.solver.application.Application: construct,
+    add_user_options + consume_user_options (when a command line is
+    involved), configure(); configure_solver is the caller's next step."""
     import importlib
     mod, base, opts, dims, takes_solids = SCHEMES[cfg['scheme']]
     cls = getattr(importlib.import_module(mod), cfg['scheme'])
     kw = dict(base)
     o = dict(cfg['options'])
-    solids = ['solid'] if cfg['solids'] else []
+    fluids = fluid_names(cfg)
+    solids = solid_names(cfg)
     if o.get('inviscid_solids') == 'SOLIDS':
         # a separate boundary array treated as an inviscid (slip) wall
         o['inviscid_solids'] = ['wall']
+    if o.get('hardpoints') == 'HP':
+        o['hardpoints'] = {0: [1.0, 0.0, 0.0]}
+    iom = None
+    if 'iom' in o:
+        kind = o.pop('iom')
+        if kind is not None:
+            iom = make_iom(kind, fluids, cfg)
+            o['inlet_outlet_manager'] = iom
     if cfg['scheme'] == 'MAGMA2Scheme':
         if o.get('adaptive_h_scheme') == 'magma2':
             kw['ndes'] = {1: 10, 2: 30, 3: 60}[cfg['dim']]
         else:
             kw['hfact'] = 1.2
-    kw.update(o)
-    if takes_solids:
-        s = cls(fluids=['fluid'], solids=solids, dim=cfg['dim'], **kw)
+        if cfg.get('route', 'ctor') != 'ctor':
+            # whichever adaptive-h scheme is selected later has its
+            # parameter
+            kw['ndes'] = {1: 10, 2: 30, 3: 60}[cfg['dim']]
+            kw['hfact'] = 1.2
+    route = cfg.get('route', 'ctor')
+    chooser = cfg.get('chooser')
+
+    def construct(extra):
+        k2 = dict(kw)
+        k2.update(extra)
+        if cfg['scheme'] == 'ParticlePacking':
+            return cls(fluids=list(fluids),
+                       solids=dict((n, n + '_nodes') for n in solids),
+                       frozen=['frozen'], dim=cfg['dim'], **k2)
+        if takes_solids:
+            return cls(fluids=list(fluids), solids=list(solids),
+                       dim=cfg['dim'], **k2)
+        return cls(fluids=list(fluids), dim=cfg['dim'], **k2)
+
+    later, argv = {}, []
+    if route == 'ctor':
+        s = construct(o)
+    elif route == 'configure':
+        s = construct({})
+        # None is the constructors' "not given" marker, not a value
+        later = dict((k, v) for k, v in o.items() if v is not None)
     else:
-        s = cls(fluids=['fluid'], dim=cfg['dim'], **kw)
-    return s
+        import argparse
+        probe = construct({})
+        p0 = argparse.ArgumentParser()
+        g0 = p0.add_argument_group('scheme', '', conflict_handler='resolve')
+        probe.add_user_options(g0)
+        argv, used = _cli_args(g0._group_actions, probe, o)
+        s = construct(dict((k, v) for k, v in o.items() if k not in used))
+    top = s
+    if chooser is not None:
+        from pysph.sph.scheme import SchemeChooser, WCSPHScheme, TVFScheme
+        if cfg['scheme'] == 'WCSPHScheme':
+            alt = TVFScheme(list(fluids), list(solids), cfg['dim'], rho0=1.0,
+                            c0=10.0, nu=0.01, p0=100.0, pb=100.0, h0=0.13)
+        else:
+            alt = WCSPHScheme(list(fluids), list(solids), cfg['dim'],
+                              rho0=1.0, c0=10.0, h0=0.13, hdx=1.3)
+        if chooser == 'default':
+            top = SchemeChooser(default='main', main=s, other=alt)
+        else:
+            top = SchemeChooser(default='other', other=alt, main=s)
+            argv = ['--scheme', 'main'] + argv
+    if chooser is not None or route == 'cli':
+        import argparse
+        parser = argparse.ArgumentParser()
+        grp = parser.add_argument_group('scheme', '',
+                                        conflict_handler='resolve')
+        top.add_user_options(grp)
+        ns = parser.parse_args(argv)
+        top.consume_user_options(ns)
+    if later:
+        top.configure(**later)
+    return top, s, iom
 
 
-def make_particles(cfg, n1=None):
+def make_particles(cfg, n1=None, iom=None):
     """A completely filled lattice (made periodic in stage 2, so that no
     free surface exists and every scheme sees a uniform density); the
-    bottom two layers along the last axis form the solid array, two layers
-    along x the inviscid wall when asked for."""
+    bottom two layers along the last axis form the solid array (the top two
+    a second one), two layers along x the inviscid wall when asked for; the
+    fluid is split at mid x into two arrays when two fluids are asked for.
+    With an inlet/outlet manager two layers left/right of the block are
+    the inlet/outlet and the manager creates their ghosts."""
     import numpy as np
     from pysph.base.utils import get_particle_array
     dim = cfg['dim']
     dx = 0.1
-    n = n1 or {1: 12, 2: 8, 3: 8}[dim]
+    n = n1 or lattice_n(cfg)
     idx = np.indices((n,) * dim).reshape(dim, -1)
     co = [(idx[a] + 0.5) * dx for a in range(dim)]
     N = idx.shape[1]
     which = np.zeros(N, dtype=int)
-    if cfg['solids']:
-        which[idx[dim - 1] < 2] = 1
+    ns = len(solid_names(cfg))
+    if ns:
+        which[idx[dim - 1] < 2] = 2
+        if ns > 1:
+            which[idx[dim - 1] >= n - 2] = 3
     if cfg['options'].get('inviscid_solids') == 'SOLIDS':
-        which[(idx[0] >= n - 2) & (which == 0)] = 2
+        hi = n - 2
+        if dim == 1 and ns > 1:
+            hi = n - 4
+        which[(idx[0] >= hi) & (idx[0] < hi + 2) & (which == 0)] = 4
+    if cfg.get('nfluids', 1) > 1:
+        which[(idx[0] >= n // 2) & (which == 0)] = 1
     out = []
-    for k, nm in ((0, 'fluid'), (1, 'solid'), (2, 'wall')):
+    fn, sn = NAMES[cfg.get('names', 'std')]
+    for k, nm in ((0, fn[0]), (1, fn[1]), (2, sn[0]), (3, sn[1]),
+                  (4, 'wall')):
         sel = which == k
         if k > 0 and not sel.any():
             continue
@@ -199,23 +547,54 @@ def make_particles(cfg, n1=None):
         pa = get_particle_array(name=nm, x=x, y=y, z=z,
                                 h=np.ones(M) * 1.3 * dx,
                                 m=np.ones(M) * dx ** dim, rho=np.ones(M))
-        if k == 0:
+        if k < 2:
             pa.u[:] = 0.01 * np.sin(2 * np.pi * x / (n * dx))
             if dim > 1:
                 pa.v[:] = 0.01 * np.cos(2 * np.pi * y / (n * dx))
         out.append(pa)
+        if cfg['scheme'] == 'ParticlePacking' and k in (2, 3):
+            out.append(get_particle_array(
+                name=nm + '_nodes', x=x, y=y, z=z, h=np.ones(M) * 1.3 * dx,
+                m=np.ones(M) * dx ** dim, rho=np.ones(M)))
+    if cfg['scheme'] == 'ParticlePacking':
+        pa = out[0]
+        out.append(get_particle_array(
+            name='frozen', x=pa.x - 2.0, y=pa.y.copy(), z=pa.z.copy(),
+            h=pa.h.copy(), m=pa.m.copy(), rho=pa.rho.copy()))
+    if iom is not None:
+        tidx = np.indices((2,) + (n,) * (dim - 1)).reshape(dim, -1)
+        M = tidx.shape[1]
+        yy = (tidx[1] + 0.5) * dx if dim > 1 else np.zeros(M)
+        zz = (tidx[2] + 0.5) * dx if dim > 2 else np.zeros(M)
+        ios = []
+        for nm, xx in (('inlet', -(tidx[0] + 0.5) * dx),
+                       ('outlet', n * dx + (tidx[0] + 0.5) * dx)):
+            ios.append(get_particle_array(
+                name=nm, x=xx, y=yy, z=zz, h=np.ones(M) * 1.3 * dx,
+                m=np.ones(M) * dx ** dim, rho=np.ones(M)))
+        out += ios
+        for pa, inl in zip(ios, (True, False)):
+            g = iom.create_ghost(pa, inlet=inl)
+            if g is not None:
+                out.append(g)
     return out
+
+
+def has_walls(cfg):
+    return bool(cfg.get('solids')) or \
+        cfg['options'].get('inviscid_solids') == 'SOLIDS' or \
+        cfg['options'].get('iom') is not None
 
 
 def make_domain(cfg, n1=None):
     # periodic ghosts of *solid* arrays are not supported by several schemes
     # (their ghost update equations only treat fluids): problems with solids
     # run as a free block standing on its wall instead
-    if cfg['solids'] or cfg['options'].get('inviscid_solids') == 'SOLIDS':
+    if has_walls(cfg):
         return None
     from pysph.base.nnps import DomainManager
     dim = cfg['dim']
-    n = n1 or {1: 12, 2: 8, 3: 8}[dim]
+    n = n1 or lattice_n(cfg)
     L = n * 0.1
     kw = dict(xmin=0.0, xmax=L, periodic_in_x=True)
     if dim > 1:
@@ -242,6 +621,7 @@ def flatten(eqs):
 
 DEST_ONLY = {'WI': ('h',), 'DWI': ('h',), 'GHI': ('h',), 'WDASHI': ('h',)}
 SRC_ONLY = {'WJ': ('h',), 'DWJ': ('h',), 'GHJ': ('h',), 'WDASHJ': ('h',)}
+HOOKS = ('initialize', 'initialize_pair', 'loop_all', 'loop', 'post_loop')
 
 
 def symbol_needs(symbols):
@@ -264,6 +644,12 @@ def symbol_needs(symbols):
     return d, s
 
 
+def stepper_methods(st_):
+    return [m for m in dir(st_)
+            if m == 'initialize' or (m.startswith('stage') and
+                                     m[5:].isdigit())]
+
+
 def scan_requirements(equations, steppers, arrays):
     """-> list of (who, array, missing names)"""
     from vlib.refeval import DEPENDS
@@ -272,8 +658,7 @@ def scan_requirements(equations, steppers, arrays):
     miss = []
     for eq in equations:
         d, s = set(), set()
-        for h in ('initialize', 'initialize_pair', 'loop_all', 'loop',
-                  'post_loop'):
+        for h in HOOKS:
             m = getattr(eq, h, None)
             if m is None:
                 continue
@@ -305,16 +690,84 @@ def scan_requirements(equations, steppers, arrays):
             miss.append((type(st_).__name__, nm, ['<no such array>']))
             continue
         need = set()
-        for mname in dir(st_):
-            if mname == 'initialize' or (mname.startswith('stage') and
-                                         mname[5:].isdigit()):
-                for a in inspect.signature(getattr(st_, mname)).parameters:
-                    if a.startswith('d_') and a != 'd_idx':
-                        need.add(a[2:])
+        for mname in stepper_methods(st_):
+            for a in inspect.signature(getattr(st_, mname)).parameters:
+                if a.startswith('d_') and a != 'd_idx':
+                    need.add(a[2:])
         m_ = need - have[nm]
         if m_:
             miss.append((type(st_).__name__, nm, sorted(m_)))
     return miss
+
+
+# names the transpiler itself provides to hook bodies
+TRANSPILER_NAMES = frozenset(['declare', 'M_PI', 'M_PI_2', 'M_1_PI',
+                              'M_2_PI', 'INFINITY', 'NAN', 'printf', 'cast',
+                              'address', 'atomic_inc', 'atomic_dec', 'NULL',
+                              'LID_0', 'LDIM_0', 'GID_0', 'GDIM_0',
+                              'local_barrier', 'annotate'])
+
+
+def _c_value(v):
+    """can the transpiler hold this attribute value in the C struct?"""
+    import numbers
+    if isinstance(v, (bool, numbers.Number)):
+        return True
+    if isinstance(v, (list, tuple)):
+        return all(isinstance(x, numbers.Number) for x in v)
+    try:
+        import numpy as np
+        if isinstance(v, np.ndarray):
+            return v.dtype.kind in 'fiub'
+    except ImportError:
+        pass
+    return False
+
+
+def unresolved_names(objs):
+    """Names a hook body cannot resolve.  (a) a name loaded as a global that
+    exists neither in the method's module, nor in builtins, nor in the
+    transpiler / C math library: executing the Python method raises
+    NameError and the generated C refers to an undeclared identifier;
+    (b) `self.<attr>` where the object has no such attribute, or the
+    attribute is neither a method nor a number / numeric sequence: the hook
+    becomes a nogil C function over a C struct of the object's numeric
+    attributes, anything else cannot be used there.
+    -> list of (class, method, name)"""
+    import builtins
+    import dis
+    out, done = [], set()
+    for o in objs:
+        cls = type(o)
+        names = [h for h in HOOKS if getattr(o, h, None) is not None]
+        if not names:
+            names = stepper_methods(o)
+        for mname in names:
+            f = getattr(getattr(o, mname), '__func__', None)
+            if f is None or not hasattr(f, '__code__'):
+                continue
+            prev = None
+            for ins in dis.get_instructions(f):
+                if ins.opname == 'LOAD_GLOBAL' and (cls, mname) not in done:
+                    nm = ins.argval
+                    if not (nm in f.__globals__ or hasattr(builtins, nm) or
+                            nm in TRANSPILER_NAMES or hasattr(math, nm)):
+                        # (the C math library is known to the transpiler)
+                        out.append((cls.__name__, mname, nm))
+                elif ins.opname in ('LOAD_ATTR', 'LOAD_METHOD') and \
+                        prev is not None and prev.opname == 'LOAD_FAST' and \
+                        prev.argval == 'self':
+                    nm = ins.argval
+                    if not hasattr(o, nm):
+                        out.append((cls.__name__, mname, 'self.' + nm))
+                    else:
+                        v = getattr(o, nm)
+                        if not callable(v) and not _c_value(v):
+                            out.append((cls.__name__, mname,
+                                        'self.%s=%r' % (nm, v)))
+                prev = ins
+            done.add((cls, mname))
+    return out
 
 
 def is_default(cfg):
@@ -323,7 +776,10 @@ def is_default(cfg):
     cls = getattr(importlib.import_module(mod), cfg['scheme'])
     sig = inspect.signature(cls.__init__).parameters
     for k, v in cfg['options'].items():
-        if k in base:
+        if k == 'iom':
+            if v is not None:
+                return False
+        elif k in base:
             if base[k] != v:
                 return False
         elif k in sig and sig[k].default is not inspect.Parameter.empty:
@@ -334,8 +790,76 @@ def is_default(cfg):
     return True
 
 
+def extra_labels(cfg):
+    labels = []
+    if cfg.get('nfluids', 1) > 1:
+        labels.append('two_fluids')
+    if cfg.get('solids') and cfg.get('nsolids', 1) > 1:
+        labels.append('two_solids')
+    if cfg.get('integrator') is not None:
+        labels.append('integrator_override')
+        if cfg['scheme'] == 'WCSPHScheme' and \
+                cfg['integrator'] == 'TVDRK3Integrator':
+            labels.append('wcsph_tvdrk3')
+    if cfg.get('kernel') is not None:
+        labels.append('kernel_override')
+        if cfg['scheme'] == 'GTVFScheme' and cfg['dim'] == 1:
+            labels.append('gtvf_dim1')
+    r = cfg.get('route', 'ctor')
+    if r != 'ctor':
+        labels.append('route_' + r)
+    if cfg.get('chooser') is not None:
+        labels.append('chooser')
+        if cfg['chooser'] == 'cli':
+            labels.append('chooser_cli')
+    if cfg['options'].get('iom') is not None:
+        labels.append('io_manager')
+    if cfg.get('names', 'std') != 'std':
+        labels.append('other_names')
+    labels += list(cfg.get('_excluded', []))
+    return labels
+
+
+def fresh_names():
+    """Group names ('Group_<n>', a process-wide counter) end up in the
+    generated source, so the source of one and the same problem would
+    depend on what the process generated before and the JIT cache (keyed by
+    source) would never hit for helper evaluators such as SISPH's wall
+    normals.  Restart the numbering for every case: names stay unique
+    within a case, which is all the generated code needs."""
+    try:
+        import pysph.sph.equation as E
+        E.group_counter = E._counter()
+    except Exception:
+        pass
+
+
+def solver_kw(cfg, dt, tf):
+    if cfg['scheme'] == 'ParticlePacking':
+        # this scheme fixes tf and pfreq itself
+        return dict(dt=dt)
+    return dict(dt=dt, tf=tf, pfreq=100000)
+
+
+def setup(cfg, dt, tf):
+    """scheme construction up to get_solver -> dict or a rejection label.
+    Exceptions propagate."""
+    fresh_names()
+    top, s, iom = make_scheme(cfg)
+    top.configure_solver(kernel=make_kernel(cfg),
+                         integrator_cls=make_integrator_cls(cfg),
+                         **solver_kw(cfg, dt, tf))
+    particles = make_particles(cfg, iom=iom)
+    top.setup_properties(particles, clean=cfg['clean'])
+    eqs = top.get_equations()
+    solver = top.get_solver()
+    return dict(top=top, scheme=s, iom=iom, particles=particles, eqs=eqs,
+                solver=solver)
+
+
 def stage1(cfg, with_code):
     """-> (failures, labels, objects)"""
+    cfg = normalise(cfg)
     labels = ['stage1']
     kl = dict(scheme=cfg['scheme'])
     fails = []
@@ -345,26 +869,29 @@ def stage1(cfg, with_code):
     nd = not is_default(cfg)
     if nd:
         labels.append('non_default')
+    labels += extra_labels(cfg)
     try:
-        s = make_scheme(cfg)
-    except (ValueError, RuntimeError) as ex:
-        # documented rejection of an unsupported combination
-        return [], labels + ['rejected_by_constructor'], None
-    try:
-        s.configure_solver(dt=1e-4, tf=3e-4, pfreq=1000)
-        particles = make_particles(cfg)
-        s.setup_properties(particles, clean=cfg['clean'])
-        eqs = s.get_equations()
-        solver = s.get_solver()
+        st_ = setup(cfg, 1e-4, 3e-4)
     except (ValueError,) as ex:
         msg = str(ex)
         if 'not supported' in msg or 'Dim' in msg:
+            # documented rejection of an unsupported dimension
             return [], labels + ['rejected_dim'], None
         return [Failure(cfg['scheme'], 'setup_exception', repr(ex), kl)], \
             labels, None
+    except SystemExit as ex:
+        return [Failure(cfg['scheme'], 'setup_exception',
+                        'SystemExit(%r) (command line %r rejected or a '
+                        'helper evaluator failed to build)' % (
+                            ex.code, cfg.get('route')), kl)], labels, None
     except Exception as ex:
-        return [Failure(cfg['scheme'], 'setup_exception', repr(ex), kl)], \
-            labels, None
+        return [Failure(cfg['scheme'], 'setup_exception', repr(ex)[:400],
+                        kl)], labels, None
+    particles, eqs, solver = st_['particles'], st_['eqs'], st_['solver']
+    if solver is None or getattr(solver, 'integrator', None) is None:
+        return [Failure(cfg['scheme'], 'setup_exception',
+                        'get_solver() returned %r after configure_solver' %
+                        (solver,), kl)], labels, None
     flat = flatten(eqs)
     miss = scan_requirements(flat, solver.integrator.steppers, particles)
     if miss:
@@ -372,10 +899,33 @@ def stage1(cfg, with_code):
         fails.append(Failure(
             cfg['scheme'], 'missing_property',
             '%s needs %s on array %r which setup_properties did not '
-            'provide (options %r, dim %d, solids %s); %d such gaps' % (
-                who, names, arr, cfg['options'], cfg['dim'], cfg['solids'],
-                len(miss)),
+            'provide (options %r, dim %d, solids %s, extras %r); %d such '
+            'gaps' % (who, names, arr, cfg['options'], cfg['dim'],
+                      cfg['solids'], extras_of(cfg), len(miss)),
             dict(scheme=cfg['scheme'], who=who, names=','.join(names))))
+        return fails, labels, None
+    ids = {}
+    for e in flat:
+        ids[id(e)] = ids.get(id(e), 0) + 1
+    dup = sorted(set(type(e).__name__ for e in flat if ids[id(e)] > 1))
+    if dup:
+        fails.append(Failure(
+            cfg['scheme'], 'equation_in_two_groups',
+            'the same %s instance occurs %d times in the groups returned by '
+            'get_equations: the generated module declares it twice and '
+            'cannot compile' % (dup[0], max(ids.values())),
+            dict(scheme=cfg['scheme'], who=dup[0])))
+        return fails, labels, None
+    bad = unresolved_names(flat + list(solver.integrator.steppers.values()))
+    if bad:
+        c_, m_, n_ = bad[0]
+        fails.append(Failure(
+            cfg['scheme'], 'unresolved_name',
+            '%s.%s uses %r which is neither an argument, a local, a module '
+            'global, a numeric attribute/method of the object nor provided '
+            'by the transpiler: code for it cannot be generated (%d such '
+            'names)' % (c_, m_, n_, len(bad)),
+            dict(scheme=cfg['scheme'], who=c_, name=n_)))
         return fails, labels, None
     from pysph.sph.acceleration_eval import make_acceleration_evals
     from pysph.sph.sph_compiler import SPHCompiler
@@ -395,31 +945,55 @@ def stage1(cfg, with_code):
         except Exception as ex:
             fails.append(Failure(cfg['scheme'], 'code_generation',
                                  repr(ex)[:400], kl))
-    return fails, labels, (s, particles, eqs, solver)
+    return fails, labels, st_
+
+
+def stage2_cfg(cfg):
+    """The configuration stage 2 actually runs: the stage-2 state is a
+    periodic box when there are no walls, and schemes with a has_ghosts
+    option document that it must be on when ghosts exist; the inlet/outlet
+    managers, integrators and kernels outside the stage-2 lists are reset
+    (those are stage-1 matters, see ASSUMPTIONS)."""
+    cfg = normalise(cfg)
+    o = dict(cfg['options'])
+    if 'iom' in o:
+        o['iom'] = None
+    cfg = dict(cfg, options=o)
+    if 'has_ghosts' in o and make_domain(cfg) is not None \
+            and not o['has_ghosts']:
+        o['has_ghosts'] = True
+    if cfg['scheme'] == 'CRKSPHScheme' and cfg['nfluids'] > 1 and \
+            not cfg.get('_no_exclude'):
+        # CRKSPHPreStep (loop_all) builds the moments from one source array
+        # at a time and keeps those of the last one: with two fluid arrays
+        # the corrections are wrong and the run blows up within 3 steps.
+        # Open finding C12-crksph-two-fluids (known_findings.json; replay
+        # replays/C12/crksph_two_fluids.json carries _no_exclude).
+        cfg['nfluids'] = 1
+        cfg['_excluded'] = sorted(set(list(cfg.get('_excluded', [])) + [
+            'known_crksph_two_fluids_excluded']))
+    if cfg['integrator'] not in S2_INTEGRATORS.get(cfg['scheme'], [None]):
+        cfg['integrator'] = None
+    if cfg['kernel'] not in S2_KERNELS:
+        cfg['kernel'] = None
+    return normalise(cfg)
 
 
 def stage2(cfg):
     import numpy as np
     from pysph.base.nnps import LinkedListNNPS
     labels = ['stage2']
-    if 'has_ghosts' in cfg['options'] and make_domain(cfg) is not None \
-            and not cfg['options']['has_ghosts']:
-        # the stage-2 state is a periodic box: schemes with a has_ghosts
-        # option document that it must be on when ghosts exist
-        cfg = dict(cfg, options=dict(cfg['options'], has_ghosts=True))
+    cfg = stage2_cfg(cfg)
+    labels += ['s2_' + l for l in extra_labels(cfg)]
     kl = dict(scheme=cfg['scheme'])
+    if cfg.get('nfluids', 1) > 1:
+        kl['fluids'] = 'two'
     try:
-        s = make_scheme(cfg)
-    except (ValueError, RuntimeError):
-        return [], labels, False
-    try:
-        s.configure_solver(dt=1e-3, tf=3e-3, pfreq=100000)
-        particles = make_particles(cfg)
-        s.setup_properties(particles, clean=cfg['clean'])
-        eqs = s.get_equations()
-        solver = s.get_solver()
-    except Exception:
+        st_ = setup(cfg, 1e-3, 3e-3)
+    except (SystemExit, Exception):
+        # stage 1 reports these
         return [], labels + ['stage2_setup_failed'], False
+    particles, eqs, solver = st_['particles'], st_['eqs'], st_['solver']
     # a sensible positive initial state for whatever the scheme added
     for pa in particles:
         for nm in ('e', 'p', 'cs', 'V', 'rho0', 'h0', 'wij', 'number_density',
@@ -458,38 +1032,114 @@ def stage2(cfg):
                 return [Failure(
                     cfg['scheme'], 'non_finite',
                     'property %s of %s not finite after 3 steps (%r)' % (
-                        nm, pa.name, cfg), dict(scheme=cfg['scheme'],
-                                                prop=nm))], labels, True
+                        nm, pa.name, cfg), dict(kl, prop=nm))], labels, True
     return [], labels, True
+
+
+def emitted_classes(cfg):
+    """Names of the equation / stepper / integrator classes a configuration
+    makes the code generator emit (no particles needed)."""
+    try:
+        top, s, iom = make_scheme(cfg)
+        top.configure_solver(kernel=make_kernel(cfg),
+                             integrator_cls=make_integrator_cls(cfg),
+                             **solver_kw(cfg, 1e-3, 3e-3))
+        eqs = top.get_equations()
+        solver = top.get_solver()
+    except (SystemExit, Exception):
+        return None
+    out = set('eq:' + type(e).__name__ for e in flatten(eqs))
+    out |= set('st:' + type(x).__name__
+               for x in solver.integrator.steppers.values())
+    out.add('in:' + type(solver.integrator).__name__)
+    return out
+
+
+def class_cover(name, cap=6):
+    """A fixed (seed-independent) small set of stage-2 configurations of a
+    scheme that together emit every equation, stepper and integrator class
+    the scheme can emit in stage 2.  dim 2 (the emitted classes do not
+    depend on dim), options by lattice stride, integrators from the stage-2
+    list."""
+    mod, base, opts, dims, solids = SCHEMES[name]
+    factors = [('dim', [2]), ('solids', [True, False] if solids
+                              else [False]), ('clean', [True])]
+    factors += [('o:' + k, list(opts[k])) for k in sorted(opts)
+                if k != 'iom']
+    factors += [('nfluids', [1, 2])]
+    if solids:
+        factors.append(('nsolids', [1, 2]))
+    factors.append(('integrator', S2_INTEGRATORS.get(name, [None])))
+    total = 1
+    for k, v in factors:
+        total *= len(v)
+    stride = _coprime_stride(total)
+    pool, seen = [], set()
+    for k in range(min(160, total)):
+        c = stage2_cfg(_decode(name, factors, (k * stride) % total))
+        h = canon(c)
+        if h in seen:
+            continue
+        seen.add(h)
+        cl = emitted_classes(c)
+        if cl:
+            pool.append((c, cl))
+    need = set()
+    for c, cl in pool:
+        need |= cl
+    chosen = []
+    while need and len(chosen) < cap:
+        best = max(pool, key=lambda x: len(x[1] & need))
+        gain = best[1] & need
+        if not gain:
+            break
+        chosen.append(best[0])
+        need -= gain
+    return chosen, sorted(need)
 
 
 # ------------------------------------------------------------ entry points
 @st.composite
-def cfg_strategy(draw, name):
+def cfg_strategy(draw, name, stage2_only=False):
     mod, base, opts, dims, solids = SCHEMES[name]
-    return dict(scheme=name, dim=draw(st.sampled_from(dims)),
-                solids=draw(st.booleans()) if solids else False,
-                clean=draw(st.booleans()),
-                options=dict((k, draw(st.sampled_from(v)))
-                             for k, v in sorted(opts.items())))
+    cfg = dict(scheme=name, dim=draw(st.sampled_from(dims)),
+               solids=draw(st.booleans()) if solids else False,
+               clean=draw(st.booleans()),
+               options=dict((k, draw(st.sampled_from(v)))
+                            for k, v in sorted(opts.items())))
+    for k in EXTRA_KEYS:
+        vals = EXTRAS[k]
+        if stage2_only and k == 'integrator':
+            vals = S2_INTEGRATORS.get(name, [None])
+        if stage2_only and k == 'kernel':
+            vals = S2_KERNELS
+        cfg[k] = draw(st.sampled_from(vals))
+    if stage2_only and 'iom' in cfg['options']:
+        cfg['options']['iom'] = None
+    return normalise(cfg)
 
 
 def plan(ctx):
     names = sorted(SCHEMES)
     shards = []
+    quick = ctx['tier'] == 'quick'
     for i, nm in enumerate(names):
-        shards.append(dict(name='stage1-' + nm, kind='stage1', scheme=nm,
-                           drawn=30 if ctx['tier'] == 'quick' else 0,
-                           full=ctx['tier'] != 'quick'))
-    if ctx['tier'] == 'quick':
-        # stage 2: one sampled configuration per scheme, rotating with seed
-        for i, nm in enumerate(names):
-            shards.append(dict(name='stage2-' + nm, kind='stage2', scheme=nm,
-                               n=2))
-    else:
-        for i, nm in enumerate(names):
-            shards.append(dict(name='stage2-' + nm, kind='stage2', scheme=nm,
-                               n=24))
+        if quick:
+            shards.append(dict(name='stage1-' + nm, kind='stage1',
+                               scheme=nm, drawn=40, full=False))
+        else:
+            # the full option product, one shard per dimension
+            for d in SCHEMES[nm][3]:
+                shards.append(dict(name='stage1-%s-d%d' % (nm, d),
+                                   kind='stage1', scheme=nm, drawn=200,
+                                   full=True, dim=d))
+    names = [nm for nm in names if nm not in STAGE1_ONLY]
+    for i, nm in enumerate(names):
+        shards.append(dict(name='stage2c-' + nm, kind='stage2c', scheme=nm))
+    for i, nm in enumerate(names):
+        # a sample that rotates with the seed
+        shards.append(dict(name='stage2-' + nm, kind='stage2', scheme=nm,
+                           n=2 if quick else 24))
     return shards
 
 
@@ -497,12 +1147,16 @@ def run_shard(spec, ctx):
     stats = Stats()
     name = spec['scheme']
     if spec['kind'] == 'stage1':
-        cfgs = all_configs(name) if spec['full'] else pairwise_configs(name)
+        cfgs = pairwise_configs(name, ctx.seed)
+        stats.extra['covering_' + name] = len(cfgs)
+        if spec['full']:
+            cfgs = [c for c in cfgs + all_configs(name)
+                    if c['dim'] == spec.get('dim', c['dim'])]
         stats.extra['enumerated_' + name] = len(cfgs)
         seen = set()
         for i, cfg in enumerate(cfgs):
             ctx.journal(cfg)
-            with_code = spec['full'] or (i % 4 == 0)
+            with_code = spec['full'] or (i % 2 == 0)
             fails, labels, _ = stage1(cfg, with_code)
             out = Outcome(fails, labels, 'non_default' in labels)
             stats.record(cfg, out)
@@ -517,19 +1171,36 @@ def run_shard(spec, ctx):
                 fails = [f for f in fails if f.sig() not in seen]
                 return Outcome(fails, labels, 'non_default' in labels)
             search(cfg_strategy(name), execute,
-                   derive_seed(ctx.seed, 'C12', name), spec['drawn'], stats,
-                   shrink=True)
+                   derive_seed(ctx.seed, 'C12', spec['name']),
+                   stats.evaluations + spec['drawn'], stats, shrink=True)
         return stats.result()
-    # stage 2
     stats.extra['jit_compiles'] = 0
+    if spec['kind'] == 'stage2c':
+        cfgs, left = class_cover(name)
+        stats.extra['cover_' + name] = len(cfgs)
+        if left:
+            stats.extra['cover_left_' + name] = left
+        for cfg in cfgs:
+            cfg = dict(cfg, stage2=True)
+            ctx.journal(cfg)
+            fails, labels, ran = stage2(cfg)
+            if ran:
+                stats.extra['jit_compiles'] += 1
+            stats.record(cfg, Outcome(fails, labels + ['stage2_cover'],
+                                      ran and not is_default(cfg)))
+            for f in fails:
+                stats.failures.append(f.as_dict(cfg))
+        return stats.result()
 
+    # stage 2, rotating
     def execute2(cfg):
+        cfg = dict(cfg, stage2=True)
         ctx.journal(cfg)
         fails, labels, ran = stage2(cfg)
         if ran:
             stats.extra['jit_compiles'] += 1
         return Outcome(fails, labels, ran and not is_default(cfg))
-    search(cfg_strategy(name), execute2,
+    search(cfg_strategy(name, True), execute2,
            derive_seed(ctx.seed, 'C12s2', name), spec['n'] + 1, stats,
            shrink=False)
     return stats.result()
